@@ -30,9 +30,12 @@ def direct(api, fn, n, shuffle=False):
     return combo_runner(fn, {"b": [20, 21]}, cases=cases, verbosity=0)
 
 
-def sow(crop, api, n, **kw):
+def sow(crop, api, n, rev=False, **kw):
     if api == 0:
-        crop.sow_combos(grid(n), verbosity=0, **kw)
+        g = grid(n)
+        if rev:
+            g = dict(reversed(list(g.items())))     # arguments spelled in non-alphabetical order
+        crop.sow_combos(g, verbosity=0, **kw)
     elif api == 1:
         crop.sow_cases(("a", "b"), case_list(n), verbosity=0, **kw)
     elif api == 2:
@@ -82,7 +85,9 @@ def same_nested(x, y):
 
 # --------------------------------------------------------------------------
 # (a) batching
-def body_batching(E, api, n, mode, b, base):
+def body_batching(E, api, n, mode, b, base, rev=False):
+    """rev: the grid's arguments are spelled in non-alphabetical order; the crop documents that it sorts them by
+    name, so the reaped nested tuple is the direct run of the name-sorted grid"""
     api = concretize(api, 0, 4)
     n = concretize(n, 1, 10)
     mode = concretize(mode, 0, 2)
@@ -92,7 +97,7 @@ def body_batching(E, api, n, mode, b, base):
     with E() as env:
         ref = direct_for_reap(api, fn, n)
         crop = cp.Crop(fn=fn, name="t", parent_dir=env.parent, **batching_kwargs(mode, b))
-        sow(crop, api, n)
+        sow(crop, api, n, rev=cbool(rev))
         B = n_batches_expected(N, mode, b)
         if crop.num_batches != B or crop.num_sown_batches != B:
             return False
@@ -241,6 +246,23 @@ def body_sessions(E, api, f1, f2, f3, f4, mode, b, base):
         return same_nested(out, ref) and not env.exists(crop_dir(env))
 
 
+def body_wait_many(E, wait, fresh, base):
+    """ten batches (two-digit batch numbers), all grown, reaped with wait=True / False by the sowing object or a
+    fresh one: results are chained in batch-number order, not in the order of the file names"""
+    fn = mkfn(base)
+    n = 10
+    with E() as env:
+        ref = direct_for_reap(0, fn, n)
+        crop = cp.Crop(fn=fn, name="t", parent_dir=env.parent, batchsize=1)
+        sow(crop, 0, n)
+        for i in (3, 10, 1, 7, 2, 9, 4, 8, 6, 5):
+            cp.grow(i, crop=crop, verbosity=0)
+        if cbool(fresh):
+            crop = cp.Crop(name="t", parent_dir=env.parent)
+        out = crop.reap(wait=cbool(wait))
+        return same_nested(out, ref) and not env.exists(crop_dir(env))
+
+
 def body_successive(E, api, kind, f1, base, base2):
     """one process, the same crop name and directory used twice with two different functions: first crop sown,
     grown and reaped (kind 0) or sown and grown only, then sown again with the new function (kind 1); every batch
@@ -313,8 +335,8 @@ _B = "grids / case lists (tuple and dict spelling) / cases x sub-grid; batchsize
 _API = "api: 0 sow_combos grid, 1 sow_cases tuples, 2 sow_cases dicts, 3 sow_combos cases x sub-grid"
 
 CONDS = (
-    split_conds(_G, "batching", body_batching, "n:int mode:int b:int base:int",
-                ["1 <= n <= 6 and 0 <= mode <= 2 and 1 <= b <= n + 2"], "api", [0, 1, 2],
+    split_conds(_G, "batching", body_batching, "n:int mode:int b:int base:int rev:bool",
+                ["1 <= n <= 6 and 0 <= mode <= 2 and 1 <= b <= n + 2", "not rev or API == 0"], "api", [0, 1, 2],
                 timeout=200, tiers=("quick",), bounds="N<=6 settings; " + _B + "; " + _API)
     + [make_cond(_G, "batching_api3", body_batching, "n:int mode:int b:int base:int",
                  ["1 <= n <= 3 and 0 <= mode <= 2 and 1 <= b <= 2 * n + 2"], fixed=dict(api=3),
@@ -363,6 +385,9 @@ CONDS = (
                   bounds="3 settings; a fresh Crop(name, parent_dir) object optionally before the first grow, before "
                          "the remaining grows (explicit or grow_missing) and before the reap; all batching modes; "
                          + _API)
+    + [make_cond(_G, "wait_many", body_wait_many, "wait:bool fresh:bool base:int", [], timeout=200,
+                 bounds="10 batches of one setting grown in scrambled order, reaped with wait=True|False by the "
+                        "sowing or a fresh Crop object")]
     + [make_cond(_G, "successive", body_successive, "api:int kind:int f1:bool base:int base2:int",
                  ["0 <= api <= 1 and 0 <= kind <= 1 and base != base2"], timeout=200,
                  bounds="the same crop name and directory used for two different functions in one process (after a "
